@@ -1507,6 +1507,13 @@ func (c *Conn) sendPending(id uint32) error {
 
 		err := c.flushData(pb.ctx, id, body, end)
 
+		// The body stream belongs to the caller's Request. It is closed while
+		// the request is still held: once released, the response may resolve it
+		// and the caller recycle the Request while Close is still running here.
+		if err == nil && end {
+			c.closeBodyStream(pb)
+		}
+
 		pb.ctx.release()
 
 		if err != nil {
@@ -1514,7 +1521,6 @@ func (c *Conn) sendPending(id uint32) error {
 		}
 
 		if end {
-			c.closeBodyStream(pb)
 			return nil
 		}
 	}
